@@ -8,6 +8,7 @@ import (
 
 	"context"
 
+	"github.com/freeconf/yang/fc"
 	"github.com/freeconf/yang/meta"
 	"github.com/freeconf/yang/val"
 )
@@ -272,7 +273,9 @@ func BuildConstraints(sel *Selection, params map[string][]string) error {
 	}
 	constraints := NewConstraints(sel.Constraints)
 	maxDepth := MaxDepth{MaxDepth: 64}
-	if n, found := findIntParam(params, "depth"); found {
+	if n, found, err := findIntParam(params, "depth"); err != nil {
+		return err
+	} else if found {
 		if n == 0 {
 			return errMaxDepthZeroNotAllowed
 		} else {
@@ -303,7 +306,9 @@ func BuildConstraints(sel *Selection, params map[string][]string) error {
 	}
 	// by pointer: the constraint counts the containers it lets through
 	maxNode := &MaxNode{Max: 10000}
-	if n, found := findIntParam(params, "fc.max-node-count"); found {
+	if n, found, err := findIntParam(params, "fc.max-node-count"); err != nil {
+		return err
+	} else if found {
 		maxNode.Max = n
 	}
 	constraints.AddConstraint("fc.max-node-count", 10, 60, maxNode)
@@ -434,13 +439,15 @@ func (sel *Selection) Delete() (err error) {
 	return
 }
 
-func findIntParam(params map[string][]string, param string) (int, bool) {
-	if v, found := params[param]; found {
-		if n, err := strconv.Atoi(v[0]); err == nil {
-			return n, true
+func findIntParam(params map[string][]string, param string) (int, bool, error) {
+	if v, found := params[param]; found && len(v) > 0 {
+		n, err := strconv.Atoi(v[0])
+		if err != nil {
+			return 0, false, fmt.Errorf("%w. %s requires a number, not '%s'", fc.BadRequestError, param, v[0])
 		}
+		return n, true, nil
 	}
-	return 0, false
+	return 0, false, nil
 }
 
 // InsertInto Copy current node into given node.  If there are any existing containers of list
